@@ -1265,3 +1265,106 @@ add('C17', 'twin', 'dataclass-flag-inline', [(DC, '''        if display_attr:
             kwargs.append((field_def.name, getattr(value, field_def.name)))''', '''        if not display_attr:
             continue
         kwargs.append((field_def.name, getattr(value, field_def.name)))''')])
+
+# ----------------------------------------------------------------------------- C02
+add('C02', 'breaker', 'empty-string-vanishes-again', [(P, '        if len(lines) <= 1:', '        if len(lines) == 1:')], 'C02.a')
+add('C02', 'breaker', 'splitter-drops-piece', [(P, '''            else:
+                yield empty.join(chain(curr_line_parts, [next_part]))
+                curr_line_parts = []''', '''            else:
+                yield empty.join(curr_line_parts)
+                curr_line_parts = []''')], 'C02.b')
+add('C02', 'breaker', 'splitter-reset-without-yield', [(P, '''            if not next_is_whitespace and curr_line_parts:
+                yield empty.join(curr_line_parts)
+                curr_line_parts = []
+                curr_line_len = 0
+                # Leave next_part and next_is_whitespace as is
+                # to be processed on next iteration
+                continue''', '''            if not next_is_whitespace and curr_line_parts:
+                curr_line_parts = []
+                curr_line_len = 0
+                # Leave next_part and next_is_whitespace as is
+                # to be processed on next iteration
+                continue''')], 'C02.b')
+add('C02', 'breaker', 'splitter-duplicates-piece', [(P, '''        else:
+            curr_line_parts.append(next_part)
+            next_part = None
+            next_is_whitespace = None
+
+    if curr_line_parts:''', '''        else:
+            curr_line_parts.append(next_part)
+            curr_line_parts.append(next_part)
+            next_part = None
+            next_is_whitespace = None
+
+    if curr_line_parts:''')], 'C02.b')
+add('C02', 'breaker', 'splitter-loses-tail', [(P, '''    if curr_line_parts:
+        yield empty.join(curr_line_parts)
+
+
+@register_pretty(str)''', '''    if len(curr_line_parts) > 1:
+        yield empty.join(curr_line_parts)
+
+
+@register_pretty(str)''')], 'C02.b')
+add('C02', 'breaker', 'splitter-right-half-dropped', [(P, '''            if next_line_part:
+                next_part = next_line_part
+            else:
+                next_part = None''', '''            next_part = None''')], 'C02.b')
+add('C02', 'breaker', 'pattern-non-capturing', [(P, "WHITESPACE_PATTERN_TEXT = re.compile(r'(\\s+)')", "WHITESPACE_PATTERN_TEXT = re.compile(r'(?:\\s+)')")], 'C02.b')
+add('C02', 'breaker', 'pattern-can-be-empty', [(P, "NONWORD_PATTERN_TEXT = re.compile(r'(\\W+)')", "NONWORD_PATTERN_TEXT = re.compile(r'(\\W*)')")], 'C02.b')
+add('C02', 'breaker', 'yield-possibly-empty', [(P, '''    if len(s) <= max_len:
+        if s:
+            yield s
+        return''', '''    if len(s) <= max_len:
+        yield s
+        return''')], 'C02.c')
+add('C02', 'breaker', 'continuation-quote-auto', [(P, '''                pretty_single_line_str(
+                    line,
+                    indent=prettyprinter_indent,
+                    use_quote=use_quote,
+                )''', '''                pretty_single_line_str(
+                    line,
+                    indent=prettyprinter_indent,
+                )''')], 'C02.d')
+add('C02', 'breaker', 'bytes-prefix-only-when-short', [(P, '''        annotate(Token.STRING_AFFIX, 'b')
+        if isinstance(s, bytes)
+        else \'\'''', '''        annotate(Token.STRING_AFFIX, 'b')
+        if isinstance(s, bytes) and use_quote is None
+        else \'\'''')], 'C02.g')
+add('C02', 'breaker', 'escape-one-sided', [(P, '''            .replace("\\\\'", SINGLE_QUOTE_TEXT)
+            .replace(DOUBLE_QUOTE_TEXT, '\\\\"')''', '''            .replace(DOUBLE_QUOTE_TEXT, '\\\\"')''')], 'C02.e')
+add('C02', 'breaker', 'escape-replace-count', [(P, '''            .replace('\\\\"', DOUBLE_QUOTE_TEXT)
+            .replace(SINGLE_QUOTE_TEXT, "\\\\'")''', '''            .replace('\\\\"', DOUBLE_QUOTE_TEXT)
+            .replace(SINGLE_QUOTE_TEXT, "\\\\'", 1)''')], 'C02.e')
+add('C02', 'breaker', 'closing-quote-missing', [(P, '''            concat([
+                use_quote,
+                escapes_highlighted,
+                use_quote
+            ])''', '''            concat([
+                use_quote,
+                escapes_highlighted,
+            ])''')], 'C02.g')
+add('C02', 'breaker', 'width-floor-zero', [(P, "            8 + len('\"\"')\n        )", "            0\n        )")], 'C02.f')
+add('C02', 'breaker', 'pieces-reversed', [(P, '''                for line in lines
+            )
+        )''', '''                for line in reversed(lines)
+            )
+        )''')], 'C02.d')
+add('C02', 'breaker', 'quote-strategy-prefers-escapes', [(P, '''    if not contains_single:
+        return SINGLE_QUOTE_TEXT
+
+    if not contains_double:
+        return DOUBLE_QUOTE_TEXT''', '''    if not contains_single:
+        return DOUBLE_QUOTE_TEXT
+
+    if not contains_double:
+        return SINGLE_QUOTE_TEXT''')], 'C02.e')
+add('C02', 'twin', 'tail-flush-len', [(P, '''    if curr_line_parts:
+        yield empty.join(curr_line_parts)
+
+
+@register_pretty(str)''', '''    if len(curr_line_parts) > 0:
+        yield empty.join(curr_line_parts)
+
+
+@register_pretty(str)''')])
